@@ -34,8 +34,8 @@ ID = "C20"
 BUILD_C = True
 AUDIT_IMPORTS = ["HypatiaProofs.Properties.C20"]
 THEOREMS = ["Hyp.C20." + t for t in (
-    "c20_apply_normalised", "c20_apply_passthrough", "c20_okapi_raw_bound", "c20_okapi_bound",
-    "c20_cosine_repeated_term", "c20_sort_weighted", "c20_sort_limit", "c20_sort_empty",
+    "c20_apply_normalised", "c20_apply_passthrough", "c20_tree_score", "c20_okapi_raw_bound",
+    "c20_okapi_bound", "c20_cosine_raw_bound", "c20_cosine_bound", "c20_cosine_repeated_term", "c20_sort_weighted", "c20_sort_limit", "c20_sort_empty",
     "c20_sort_unweighted")]
 CASES = {"quick": 900, "thorough": 30000}
 BUDGET_S = {"quick": 45, "thorough": 780}
@@ -148,6 +148,15 @@ def gen(rng, tier, idx):
             cmds.append(["index", d] + ws)
             table[d] = ws
 
+    oov = [99]
+
+    def unknown(distinct):
+        """an id no document contains; a fresh one each time when ids must be pairwise distinct"""
+        if distinct:
+            oov[0] += 1
+            return oov[0]
+        return 99
+
     def gen_tree(depth, pool, distinct, allow_glob):
         """pool: word ids still available when `distinct`"""
         def pick():
@@ -172,7 +181,7 @@ def gen(rng, tier, idx):
                 else:
                     pw = [w for w in (pick(), pick()) if w is not None]
                     if len(pw) < 2:
-                        pw = pw + [99]
+                        pw = pw + [unknown(distinct)]
                 parts = [new_term([w]) for w in pw]
                 lexn[0] += 1
                 pid = lexn[0]
@@ -183,16 +192,16 @@ def gen(rng, tier, idx):
             r3 = rng.random()
             w = pick()
             if w is None:
-                return ("a", new_term([99]))
+                return ("a", new_term([unknown(distinct)]))
             if r3 < 0.75:
                 return ("a", new_term([w]))
             if r3 < 0.83:
                 return ("a", new_term([]))                      # stop word: search -> None
             if r3 < 0.9:
-                return ("a", new_term([w, 99]))                 # one unknown id
+                return ("a", new_term([w, unknown(distinct)]))  # one unknown id
             if r3 < 0.95 and not distinct:
                 return ("a", new_term([w, w]))                  # repeated id inside one term
-            return ("a", new_term([99]))
+            return ("a", new_term([unknown(distinct)]))
         if r < 0.75:
             pos = [gen_tree(depth + 1, pool, distinct, allow_glob) for _ in range(rng.choice([2, 2, 3]))]
             nots = [("n", gen_tree(depth + 1, list(vocab), False, allow_glob))
@@ -408,16 +417,17 @@ RULE = ("corpora as in C08 (histories of index/reindex/unindex/reset through Tex
         "0 and negative; reverse) or on unweighted results (IF sets, lists; TypeError unless empty). "
         "non-trivial = a scored apply with >= 2 documents and an applyb inside the hypotheses")
 LEVEL_TEXT = ("Lean 4 theorems over the reals: TextIndex.apply = raw score / query_weight (raw if the weight is "
-              "0) for every tree; for every glob-free tree, every table and every lexicon the Okapi score of a "
-              "returned document satisfies 0 < score <= query_weight (induction over the tree: tf < k1+1, "
-              "idf > 0, C17 sums), hence normalised scores lie in (0,1]; the cosine bound for single terms "
-              "and a proved counterexample for repeated terms; TextIndex.sort returns the ids in descending "
-              "(reverse: ascending) score order, cut to the limit, the empty result unchanged, TypeError "
-              "without weights; tied to hypatia by a numerical differential run against TextIndex")
+              "0) for every tree; for every glob-free tree, every history and every lexicon each raw score is a "
+              "sum of the C08 summands over a sub-list of the tree's word ids (mutual induction over the tree "
+              "following executeQuery, C17 sums); hence 0 < score <= query_weight for Okapi (tf < k1+1, idf > 0) "
+              "and, when the word ids are pairwise distinct, for cosine (Cauchy-Schwarz against the document's "
+              "unit weight vector), so normalised scores lie in (0,1]; a proved counterexample for repeated "
+              "cosine terms; TextIndex.sort returns the ids in descending (reverse: ascending) score order, cut "
+              "to the limit, the empty result unchanged, TypeError without weights; tied to hypatia by a "
+              "numerical differential run against TextIndex (Okapi with the rebuilt C extension, cosine)")
 LEVEL_NOTE = ("real-number theorems; float rounding, 32-bit score storage and libm are outside and covered by "
-              "tolerance (bound checked as score <= 1 + 1e-6). The cosine bound for arbitrary glob-free trees "
-              "with distinct terms is checked by the correspondence run only (theorem stated for atoms; the "
-              "tree induction with Cauchy-Schwarz is not finished) - see Properties/C20.lean. Tie order in sort "
-              "mirrors the code (docid order); the lexicon is a table-driven stub")
+              "tolerance (bound checked as score <= 1 + 1e-6). Tie order in sort mirrors the code (tuples compare "
+              "by docid next); `limit=0` means no limit, as in the code (`if limit:`); the lexicon is a "
+              "table-driven stub; trusted: Lean kernel, sampled correspondence, harness")
 TECHNIQUE = ("Lean 4 proof (mutual structural induction over parse trees, real analysis for the BM25 bound, "
-             "sorted-permutation lemmas) + numerical differential correspondence")
+             "Cauchy-Schwarz for cosine, sorted-permutation lemmas) + numerical differential correspondence")
